@@ -44,7 +44,8 @@ ASSUMPTIONS = [
 REQUIRED = {"all": ["runs", "completed_runs", "steps", "accepted_steps", "rejected_in_range_steps", "out_of_range_proposals",
                     "flat_checks", "flat_checks_flat", "flat_checks_not_flat", "files_checked", "seqlog_lines_checked",
                     "partial_range_runs", "hostile_tapes", "start_outside_range_runs", "flat_boundary_exact_hits",
-                    "second_runs_on_same_machine", "g_beyond_709_steps", "runs_beyond_30_iterations"]}
+                    "second_runs_on_same_machine", "g_beyond_709_steps", "runs_beyond_30_iterations",
+                    "runs_converged_before_the_first_step", "ranges_not_aligned_to_the_partition", "proposals_identical_to_the_current_sequence"]}
 NRUNS = {"quick": 160, "thorough": 1200}
 STEP_BUDGET = {"quick": 3000, "thorough": 30000}
 WATCHDOG = {"quick": 1200, "thorough": 6 * 3600}
@@ -118,6 +119,26 @@ def cases(tier, seed):
                    "conv": rng.choice(["default", "1+1e-10", "1+1e-12"]), "frozen": [], "hostile": False, "o": rng.randrange(1 << 30),
                    "twice": False, "fullrange": True}
             continue
+        if i % 16 == 5:
+            # threshold at or above the starting modification factor: the run is over before its first step
+            yield {"s": seq, "M": Mb, "a": a, "b": b, "flatchk": rng.choice([1, 7, 50]), "flatcrit": rng.choice([0.0, 0.5]),
+                   "conv": rng.choice(["e", "3.0", "e+ulp"]), "frozen": [], "hostile": False, "o": rng.randrange(1 << 30), "twice": i % 32 == 5}
+            continue
+        if i % 16 == 13:
+            # very short chains with few distinct arrangements: moves regularly hand back the sequence they were given
+            pat6 = rng.choice([[1, -1, -1, -1, -1, 0], [1, 1, -1, -1, 0, 0], [1, -1, -1, -1, 0, 0, 0], [1, 1, 1, -1, -1, 0]])
+            rng.shuffle(pat6)
+            yield {"s": gen.spell_plain(pat6), "M": rng.choice([2, 3, 4]), "a": 0, "b": 0, "flatchk": rng.choice([700, 1000]), "flatcrit": 0.0,
+                   "conv": "e0.3", "frozen": [], "hostile": False, "o": rng.randrange(1 << 30), "twice": False, "fullrange": True, "tiny": True}
+            continue
+        if i % 16 == 9:
+            # a requested range that is not made of whole bins of any equal partition of [0,1]
+            raw = nonaligned_range(rng)
+            if raw is not None:
+                nb, lo, hi, M_, a_ = raw
+                yield {"s": seq, "M": M_, "a": a_, "b": a_ + nb, "raw": [nb, lo, hi], "flatchk": rng.choice([7, 50, 200]),
+                       "flatcrit": rng.choice([0.0, 0.2]), "conv": "e0.6", "frozen": [], "hostile": False, "o": rng.randrange(1 << 30), "twice": False}
+                continue
         if i % 16 == 11:
             # strict criterion checked every step or two: hundreds of consecutive failing checks within one iteration
             yield {"s": seq, "M": rng.choice([4, 5]), "a": 0, "b": 0, "flatchk": rng.choice([1, 2]), "flatcrit": 0.9, "conv": "e0.6",
@@ -130,7 +151,32 @@ def cases(tier, seed):
                "frozen": [] if i % 5 else [0, 1], "hostile": i % 4 == 1, "o": rng.randrange(1 << 30)}
 
 
-CONV = {"e0.6": math.exp(0.6), "e0.3": math.exp(0.3), "1.2": 1.2, "e0.1": math.exp(0.1), "default": math.exp(0.000001),
+def nonaligned_range(rng):
+    """(nbins, binmin, binmax, M, a): a requested range whose width / nbins does not divide [0,1] evenly.  The machine is
+    documented to lay an equal partition of [0,1] with M = round(nbins / (binmax - binmin)) bins over kappa space and to take
+    the nbins consecutive bins starting at the one whose centre is nearest binmin + width/2; settings where that rule is
+    ambiguous (ties, range running past the last bin) are not driven."""
+    for _ in range(50):
+        nb = rng.randint(2, 5)
+        lo = rng.choice([0.0, 0.05, 0.1, 0.15, 0.2, 0.3, 0.35])
+        hi = rng.choice([0.7, 0.75, 0.8, 0.85, 0.9, 0.95, 1.0])
+        w = (hi - lo) / nb
+        x = 1.0 / w
+        if abs(x - round(x)) < 0.08 or abs(x - round(x)) > 0.42:
+            continue
+        M_ = int(round(x))
+        centres = [(i + 0.5) / M_ for i in range(M_)]
+        d = sorted((abs(c - (lo + w / 2)), i) for i, c in enumerate(centres))
+        if d[1][0] - d[0][0] < 0.02:
+            continue
+        a_ = d[0][1]
+        if a_ + nb > M_:
+            continue
+        return nb, lo, hi, M_, a_
+    return None
+
+
+CONV = {"e": math.e, "3.0": 3.0, "e+ulp": math.nextafter(math.e, 3.0), "e0.6": math.exp(0.6), "e0.3": math.exp(0.3), "1.2": 1.2, "e0.1": math.exp(0.1), "default": math.exp(0.000001),
         "1+1e-10": 1.0 + 1e-10, "1+1e-12": 1.0 + 1e-12}
 
 
@@ -236,6 +282,9 @@ class Monitor:
         self.g = [0.0] * self.M
         self.H = [0] * self.M
         self.f = float(p["f"])
+        if self.f <= self.conv:
+            self.finished_f = True
+            self.rep.cnt("runs_converged_before_the_first_step")
         self.cur_obj = p["oseq"]
         self.cur_seq = p["oseq"].seq
         self.cur_idx = int(p["idx_old"])
@@ -255,6 +304,8 @@ class Monitor:
             self.bad("state_changed", "current sequence %s differs from the one occupied after the previous step %s" % (o.seq, self.cur_seq))
         if Counter(n.seq) != self.comp:
             self.bad("not_rearrangement", "proposal %s is not a rearrangement of the input" % n.seq)
+        if n.seq == o.seq:
+            self.rep.cnt("proposals_identical_to_the_current_sequence")
         self.check_kappa("proposal", n.seq, p["knew"])
         self.check_kappa("current", o.seq, p["kold"])
         if int(p["idx_old"]) != self.cur_idx:
@@ -491,11 +542,16 @@ def judge(case, rep, S):
     wl._verif_sink = mon.sink
     try:
         with installed([S["seqmod"], wl], shim), contextlib.redirect_stdout(io.StringIO()):
-            machine = wl.WangLandauMachine(case["s"], outdir, set(case["frozen"]), b - a, a / Mb, b / Mb,
+            if case.get("raw"):
+                nb_, lo_, hi_ = case["raw"]
+                rep.cnt("ranges_not_aligned_to_the_partition")
+            else:
+                nb_, lo_, hi_ = b - a, a / Mb, b / Mb
+            machine = wl.WangLandauMachine(case["s"], outdir, set(case["frozen"]), nb_, lo_, hi_,
                                            case["flatchk"], case["flatcrit"], CONV[case["conv"]])
             result = machine.run()
             completed = True
-            if case.get("twice") and not mon.dead and mon.finished_f:
+            if case.get("twice") and not mon.dead and mon.finished_f and not mon.truncated:
                 # a second run of the SAME machine is a run like any other: it starts from empty g / H
                 check_files(rep, mon, case, outdir, result, S)
                 first = mon
